@@ -21,8 +21,8 @@ from core import InfraError
 META = dict(
     level="exploration",
     technique="small-scope exhaustive enumeration of matrices over tiny entry alphabets (all instantiations, layers, overloads and call orders), factorisation oracle in long double, bitwise purity against re-ordered calls and a pristine process",
-    text="Every matrix over the stated entry alphabets (2x2 general/symmetric/hermitian over 9 values spanning 12 orders of magnitude, 3x3 symmetric/hermitian/general, 4x4 symmetric over {-1,0,1}, the neutralino sparsity pattern, Yukawa-like hierarchical 3x3, constructed exactly degenerate Q D Q^T and U D V^T) times global scalings 1, 1e6, 1e-6 is decomposed by every layer and overload of gm2_linalg.hpp for the instantiations used by the models (and the neighbouring real/complex ones); reconstruction in the documented convention, unitarity, non-negativity, ordering, agreement of overloads and the error bounds are checked on each. Purity: every routine is called again on each matrix in six other call orders (values-only before full, after a different matrix, repeated, error-bound overloads interleaved) and every result must be bitwise identical to the canonical one; for the four instantiations the models use the full and values-only results are also compared bitwise with the same call made as the first library call of a pristine process. Exhaustive within the alphabets; says nothing about matrices with other entries.",
-    note="trusted: long double arithmetic of the harness, the header-only templates are compiled into the harness from /repo/src (build variant named in HARNESSES); fork()ed zygote for the pristine-process reference; tolerances fixed in DESIGN 3/C12 (1e-12 Jacobi/QR paths, 1e-7/1e-8 closed-form 3x3)",
+    text="Every matrix over the stated entry alphabets (2x2 general/symmetric/hermitian over 9 values spanning 12 orders of magnitude, 3x3 symmetric/hermitian/general, 4x4 symmetric over {-1,0,1}, the neutralino sparsity pattern, Yukawa-like hierarchical 3x3, constructed exactly degenerate Q D Q^T and U D V^T) times global scalings 1, 1e6, 1e-6 is decomposed by every layer and overload of gm2_linalg.hpp for the instantiations used by the models (and the neighbouring real/complex ones); reconstruction in the documented convention, unitarity, non-negativity, ordering, agreement of overloads and the error bounds are checked on each. Purity: every routine is called again on each matrix in six other call orders (values-only before full, after a different matrix, repeated, error-bound overloads interleaved) and every result must be bitwise identical to the canonical one; for the four instantiations the models use the full and values-only results are also compared bitwise with the same call made as the first library call of a pristine process. On all constructed matrices with known spectrum the returned eigen/singular values must lie within 100x the returned error bound. Exhaustive within the alphabets; says nothing about matrices with other entries.",
+    note="trusted: long double arithmetic of the harness, the header-only templates are compiled into the harness from /repo/src (build variant named in HARNESSES); fork()ed zygote for the pristine-process reference; tolerance 1e-12 (reconstruction relative to |m|_F, unitarity) on every path; the looser DESIGN class for the closed-form 3x3 solver is retired since /repo ef70766 removed its last use",
     design_ref="3/C12")
 
 HARNESSES = [(("la", "clang", ["la.cpp"]), {"link_lib": False})]
@@ -34,11 +34,13 @@ QUICK = [("g2r", SCALES3), ("s2r", SCALES3), ("g2c", SCALES3), ("s2c", SCALES3),
          ("deg2", SCALES3), ("degsvd2", SCALES3), ("x23", SCALES3), ("x32", SCALES3), ("y3c", SCALES3),
          ("s3r5", [1.0]), ("s3c", [1.0]), ("h3c5", [1.0]), ("g3r", [1.0]), ("g3c3", [1.0]),
          ("deg3", SCALES3), ("degsvd3", SCALES3),
+         ("spr2", [1.0]), ("spr3", [1.0]), ("spr4", [1.0]), ("sprsvd2", [1.0]), ("sprsvd3", [1.0]),
          ("s4r", [1.0]), ("n4r5", [1.0]), ("n4c", [1.0]), ("deg4", [1.0])]
 THOROUGH = [("g2r", SCALES3), ("s2r", SCALES3), ("g2c", SCALES3), ("s2c", SCALES3), ("h2c", SCALES3),
             ("deg2", SCALES3), ("degsvd2", SCALES3), ("x23", SCALES3), ("x32", SCALES3), ("y3c", SCALES3),
             ("s3r7", SCALES3), ("s3c", SCALES3), ("h3c9", SCALES3), ("g3r", SCALES3), ("g3c4", SCALES3), ("g3r5", [1.0]), ("g3c5", [1.0]),
             ("deg3", SCALES3), ("degsvd3", SCALES3),
+            ("spr2", SCALES3), ("spr3", SCALES3), ("spr4", SCALES3), ("sprsvd2", SCALES3), ("sprsvd3", SCALES3),
             ("s4r", SCALES3), ("s4rc", [1.0]), ("n4r7", SCALES3), ("n4c", SCALES3), ("s4c", [1.0]),
             ("h4c", [1.0]), ("deg4", SCALES3)]
 # routines that must have been exercised (non-vacuity guard), instantiations of the models first
@@ -77,7 +79,7 @@ def _parse(out):
             d = dict(t.split("=", 1) for t in tk[3:])
             cls = {} if d["cls"] == "-" else dict((c.split(":")[0], int(c.split(":")[1])) for c in d["cls"].split(","))
             grp.append((tk[2], int(d["n"]), int(d["fails"]), float(d["rec"]), float(d["uni"]), float(d["val"]), cls,
-                        int(d.get("seq", 0)), int(d.get("fresh", 0))))
+                        int(d.get("seq", 0)), int(d.get("fresh", 0)), int(d.get("known", 0)), float(d.get("ebr", 0))))
         elif tk[0] == "FAIL":
             i = tk.index("M")
             r, c = int(tk[i + 1]), int(tk[i + 2])
@@ -129,9 +131,9 @@ def run(ctx):
             if end != expect:
                 raise InfraError("set %s shard %d/%d: %r codes enumerated, expected %d" % (name, sh, nsh, end, expect))
             ncodes += end
-            for g, n, nf, rec, uni, val, cls, nseq, nfresh in grp:
-                a = agg.setdefault(g, dict(n=0, fails=0, rec=0.0, uni=0.0, val=0.0, cls={}, sets=set(), seq=0, fresh=0))
-                a["n"] += n; a["fails"] += nf; a["seq"] += nseq; a["fresh"] += nfresh
+            for g, n, nf, rec, uni, val, cls, nseq, nfresh, nknown, ebr in grp:
+                a = agg.setdefault(g, dict(n=0, fails=0, rec=0.0, uni=0.0, val=0.0, cls={}, sets=set(), seq=0, fresh=0, known=0, ebr=0.0))
+                a["n"] += n; a["fails"] += nf; a["seq"] += nseq; a["fresh"] += nfresh; a["known"] += nknown; a["ebr"] = max(a["ebr"], ebr)
                 a["rec"] = max(a["rec"], rec); a["uni"] = max(a["uni"], uni); a["val"] = max(a["val"], val)
                 a["sets"].add(name)
                 for k, v in cls.items():
@@ -170,7 +172,8 @@ def run(ctx):
     ctx.note("per_routine", {g: dict(cases=a["n"], failed_checks=a["fails"], worst_reconstruction=float("%.3g" % a["rec"]),
                                      worst_unitarity=float("%.3g" % a["uni"]), worst_values_only_diff=float("%.3g" % a["val"]),
                                      classes=len(a["cls"]), sets=sorted(a["sets"]),
-                                     reordered_calls_compared=a["seq"], fresh_process_comparisons=a["fresh"])
+                                     reordered_calls_compared=a["seq"], fresh_process_comparisons=a["fresh"],
+                                     known_spectrum_cases=a["known"], worst_value_error_over_returned_bound=float("%.3g" % a["ebr"]))
                              for g, a in sorted(agg.items())})
     ctx.note("sets", {name: dict(matrices=counts[name], scales=scales) for name, scales in plan})
     ctx.sample({"set": "g2r", "alphabet": [0, 1, -1, 2, -2, 1e-6, -1e-6, 1e6, -1e6], "matrices": counts["g2r"]})
@@ -178,9 +181,10 @@ def run(ctx):
                 "example": "[[1,1,1,1],[1,1,-1,-1],[1,-1,1,-1],[1,-1,-1,1]] (eigenvalues 2,2,2,-2)"})
     ctx.sample({"classes fs_diagonalize_symmetric/r/4x4": agg["fs_diagonalize_symmetric/r/4x4"]["cls"]})
     ctx.assumptions += [
-        "tolerances: reconstruction 1e-12*||m||_F and unitarity 1e-12 (Frobenius) on Jacobi-SVD / QR paths, 1e-7 / 1e-8 for the closed-form real 3x3 eigen-solver (DESIGN 3/C12)",
+        "tolerances: reconstruction 1e-12*||m||_F and unitarity 1e-12 (Frobenius) on every path (Jacobi SVD, QR, closed-form 2x2); the 1e-7 / 1e-8 class of DESIGN 3/C12 for the closed-form real 3x3 solver is no longer granted",
         "complex symmetric (Takagi via SVD) input is not instantiated by the models; it is enumerated too and its failures are keyed '<routine>/c/<size>'",
         "purity: A = reverse(B) is the 'different matrix'; sequences full(A),vals(B),full(B) | vals(A),full(B) | full(B),vals(B),vals(B) | full(A),full(B) | vals_e(A),full_errbds(B) | full_errbds(A),vals_e(B),full_e(B) after the canonical full(B),vals(B),vals_e(B),full_e(B),full_errbds(B); complex-symmetric input runs only the first sequence; fs_svd_rc values-only calls go to the complex instantiation its full overload casts to",
+        "error-bound clause: on the constructed sets (deg*, degsvd*, spr*, sprsvd*: Q D Q^T / U D V^T with known spectrum D, bases = identity, plane rotations by 45 degrees, Hadamard, tri-bimaximal, integer rotations (3,4;4,-3)/5, (1,2,2;2,1,-2;2,-2,1)/3, quaternion (1,2,2,4)/5, complex phases) the returned values must agree with D within 100 x the returned s_errbd / w_errbd (+ 4 eps max|D| for the rounding of the constructed entries); spr* spectra: every N-tuple over {0,+-1e-6,+-1,+-1e6} and over {0,1,+-1e-8,+-1e8}",
         "error-bound index check: vector bound_i == value bound / max(gap_i, eps*max|value|) as in the LAPACK users' guide sections the header cites"]
     return ctx.finish(
         "every matrix of each set (complete product of the entry alphabet, or every (basis, sign pattern, spectrum) of the "
